@@ -413,14 +413,22 @@ func rebuild(c *wk.Case, b []byte, add map[string][]byte, drop ...string) []byte
 
 func runKern(c *wk.Case) {
 	t := c.T
-	f := simgen.GenFont(t, simgen.KindTrueType, 0)
+	huge := t.Chance(1, 25) // a kern subtable whose 16-bit length field overflows (> 10920 pairs)
+	size := 0
+	if huge {
+		size = 1
+	}
+	f := simgen.GenFont(t, simgen.KindTrueType, size)
 	n := f.NumGlyphs()
 	if n < 4 {
 		c.Trivial()
 		return
 	}
+	if huge && n < 110 {
+		huge = false
+	}
 	m := cmap.Format4{}
-	for i := 1; i < n && i < 40; i++ {
+	for i := 1; i < n && i < 120; i++ {
 		m[uint16(0x60+i)] = glyph.ID(i)
 	}
 	f.InstallCMap(m)
@@ -460,7 +468,21 @@ func runKern(c *wk.Case) {
 	pick := func() glyph.ID { return glyph.ID(1 + t.Draw(min(n-1, 39, 6+t.Draw(34)))) }
 	var kernTable []byte
 	simple := t.Chance(1, 3)
-	if simple {
+	if huge {
+		simple = true
+		for a := 1; a <= 105; a++ {
+			for b := 1; b <= 105; b++ {
+				k[glyph.Pair{Left: glyph.ID(a), Right: glyph.ID(b)}] = funit.Int16(1 + (a*7+b*13)%300 - 150)
+			}
+		}
+		for p, v := range k {
+			if v == 0 {
+				k[p] = 5
+			}
+		}
+		kernTable = k.Encode()
+		c.Count("kern_tables_with_more_than_10920_pairs", 1)
+	} else if simple {
 		np := t.Range(1, 12)
 		for i := 0; i < np; i++ {
 			v := funit.Int16(t.Range(1, 400) - 200)
@@ -571,8 +593,16 @@ func runKern(c *wk.Case) {
 				a, b, k[glyph.Pair{Left: a, Right: b}], isMark[a], isMark[b], seq[0].Advance, seq[1].Advance, seq[0].XOffset, seq[1].XOffset, want, base(b))
 		}
 	}
-	for p := range k {
-		check(p.Left, p.Right)
+	if huge {
+		for i := 0; i < 40; i++ {
+			check(glyph.ID(1+t.Draw(105)), glyph.ID(1+t.Draw(105)))
+		}
+		check(105, 105)
+		check(104, 3)
+	} else {
+		for p := range k {
+			check(p.Left, p.Right)
+		}
 	}
 	for i := 0; i < 6; i++ {
 		check(pick(), pick())
@@ -590,7 +620,15 @@ func runLigatures(c *wk.Case) {
 	}
 	o := f.Outlines.(*glyf.Outlines)
 	o.Widths[1], o.Widths[2] = 300, 700 // proportional
-	m := cmap.Format4{'f': 1, 'i': 2, 'l': 3, 'a': 4}
+	m := cmap.Format4{'f': 1, 'a': 4}
+	// the component letters i and l may be missing from the font (a subset
+	// font): a ligature whose components the font cannot spell is not a rule
+	if t.Chance(3, 4) {
+		m['i'] = 2
+	}
+	if t.Chance(3, 4) {
+		m['l'] = 3
+	}
 	ligs := map[rune]string{0xFB00: "ff", 0xFB01: "fi", 0xFB02: "fl", 0xFB03: "ffi", 0xFB04: "ffl"}
 	present := map[rune]bool{}
 	gid := glyph.ID(5)
@@ -618,18 +656,63 @@ func runLigatures(c *wk.Case) {
 	if err != nil {
 		c.Fail("ligatures", "NewLayouter", "%v", err)
 	}
-	c.Sample = map[string]any{"kind": "standard ligatures", "present": fmt.Sprint(present)}
+	c.Sample = map[string]any{"kind": "standard ligatures", "present": fmt.Sprint(present), "i_mapped": m['i'] != 0, "l_mapped": m['l'] != 0}
 	c.Sig(simgen.Digest(w.Disk))
 	c.Class("ligatures")
+	spellable := func(s string) bool {
+		for _, r := range s {
+			if m[uint16(r)] == 0 {
+				return false
+			}
+		}
+		return true
+	}
 	for r, s := range ligs {
-		if !present[r] {
+		if !present[r] || !spellable(s) {
 			continue
 		}
-		// the longest ligature must win: only test s if no longer present ligature starts with it
 		var seq []glyph.Info
 		c.MustNotPanic("Layout", func() { seq = copySeq(l.Layout("a" + s + "a")) })
 		if len(seq) != 3 || seq[1].GID != glyph.ID(m[uint16(r)]) || string(seq[1].Text) != s {
 			c.Fail("ligatures", "Layout", "proportional font without GSUB that maps %U: %q laid out as %v", r, "a"+s+"a", seq)
+		}
+	}
+	// characters the font does not map never take part in a ligature: every
+	// character of these strings must come out as its own glyph
+	for _, s := range []string{"fq", "f\u4e00a", "afx", "ffq"} {
+		if !spellable(strings.TrimRight(s, "qx\u4e00a")) {
+			continue
+		}
+		var seq []glyph.Info
+		c.MustNotPanic("Layout", func() { seq = copySeq(l.Layout(s)) })
+		rr := []rune(s)
+		// "ff" may legitimately become a ligature if the font has it
+		if strings.HasPrefix(s, "ff") && present[0xFB00] {
+			continue
+		}
+		if len(seq) != len(rr) {
+			c.Fail("ligatures", "Layout/unmapped", "%q (%d characters, the last ones not mapped by the font) laid out to %d glyphs: %v", s, len(rr), len(seq), seq)
+		}
+		for i, r := range rr {
+			if seq[i].GID != glyph.ID(m[uint16(r)]) {
+				c.Fail("ligatures", "Layout/unmapped", "%q: character %d (%U) came out as glyph %d, the font maps it to %d", s, i, r, seq[i].GID, m[uint16(r)])
+			}
+		}
+	}
+	// a letter the font lacks (i or l) after f: no ligature may swallow it
+	for _, s := range []string{"fi", "fl", "afia", "ffl", "ffi"} {
+		if spellable(s) {
+			continue
+		}
+		var seq []glyph.Info
+		c.MustNotPanic("Layout", func() { seq = copySeq(l.Layout(s)) })
+		// count the output glyphs that are ligature glyphs reachable only through the missing letter
+		for _, gi := range seq {
+			for r, comp := range ligs {
+				if present[r] && gi.GID == glyph.ID(m[uint16(r)]) && !spellable(comp) {
+					c.Fail("ligatures", "Layout/missing-component", "%q: the output contains the ligature glyph for %U (%q) although the font does not map all of its letters: %v", s, r, comp, seq)
+				}
+			}
 		}
 	}
 	c.Count("ligature_fonts_checked_(incidental)", 1)
